@@ -28,6 +28,7 @@ type c20Case struct {
 	Mode      string `json:"mode"`   // workspace | file
 	Output    string `json:"output"` // json | lineprotocol
 	CheckOnly bool   `json:"check_only"`
+	WsForm    int    `json:"workspace_spelling,omitempty"` // workspace mode: 0 = -w <dir>, 1 = -w <dir>/, 2 = -w . (started in the directory), 3 = no -w at all (started in the directory)
 }
 
 const c20Marker = "Platypus Output Data:"
@@ -186,7 +187,16 @@ type c20Result struct {
 func c20Invoke(bin, dir string, c c20Case) (c20Result, error) {
 	args := []string{"run", "-s", "main.p"}
 	if c.Mode == "workspace" {
-		args = append(args, "-w", dir)
+		switch c.WsForm {
+		case 1:
+			args = append(args, "-w", dir+string(filepath.Separator))
+		case 2:
+			args = append(args, "-w", ".")
+		case 3:
+			// the default of the flag is the directory the runner was started in
+		default:
+			args = append(args, "-w", dir)
+		}
 	} else {
 		args = append(args, "-w", "")
 	}
@@ -457,7 +467,11 @@ func c20Run(w *run.Worker) {
 					if w.Expired() {
 						return
 					}
-					c20One(w, bin, c20Case{Script: script, Input: in.Data, InputType: in.Type, Mode: cf.mode, Output: cf.out, CheckOnly: cf.checkOnly}, in)
+					wsForm := 0
+					if cf.mode == "workspace" {
+						wsForm = (counter + ii) % 4
+					}
+					c20One(w, bin, c20Case{Script: script, Input: in.Data, InputType: in.Type, Mode: cf.mode, Output: cf.out, CheckOnly: cf.checkOnly, WsForm: wsForm}, in)
 				}
 			}
 		}
@@ -513,7 +527,7 @@ func init() {
 		Level: "model_checking",
 		Rule: "every script of <=2 (thorough <=3) statements over 26 statements (set_measurement with the empty string, use() of script files with several dots in their names, add_key with int/str/float, set_tag, drop_key, rename, set_measurement literal and from a key with delete, default_time with and without zone, use of a sibling, exit, a run-time error, a load error, cast) " +
 			"x 12 inputs (text, a JSON log line, empty text, blank text, multi-line text; line protocol with a small explicit timestamp, line protocol with tags, without tags, without timestamp, with two points, with leading comment and blank lines, with a newline inside a string field) x {workspace directory with a symlinked .p sibling, a .ppl sibling, two scripts that do not load (neither selected nor used), a non-script file and a directory named like a script; single file} x {json, lineprotocol} x {run, check only}, through the real binary " +
-			"(quick: every script with a rotating 1/23 of the input x configuration grid; thorough: the full grid for <=2 statements, 1/37 of it for 3 statements); oracle: stdout after the marker parsed back and compared with the same script and input run through the library API (measurement, tags, fields, time), errors reported and no output block, check-only prints nothing",
+			"workspace given as -w <dir>, -w <dir>/, -w . and by default (started inside it), in rotation; (quick: every script with a rotating 1/23 of the input x configuration grid; thorough: the full grid for <=2 statements, 1/37 of it for 3 statements); oracle: stdout after the marker parsed back and compared with the same script and input run through the library API (measurement, tags, fields, time), errors reported and no output block, check-only prints nothing",
 		Assumptions: []string{"the influx line-protocol codec is trusted for parsing input and output", "text input: measurement default_name is pinned; time without an explicit timestamp is accepted within the invocation's wall-clock bracket +-2 s"},
 		Run:            c20Run,
 		Replay:         c20Replay,
